@@ -1,4 +1,5 @@
 import XixiKV.Proofs.HistoryStat
+import XixiKV.Proofs.CrashHistoryRun
 /-!
 # The file-size limit through `Merge`, adoption and restarts — helper lemmas for `C17_history_limit`
 
@@ -249,5 +250,230 @@ theorem merge_sizes {L : Nat} {s : St} {db : DB} {g : GDir} (hs : s.db = some db
     simp only [hrd, hmd0, Option.getD_some, get_set_self, Option.some.injEq] at hmd
     subst hmd
     exact ⟨gmc, Matches_syncAll hmt0, hfu.recs, hsz⟩
+
+/-! ## the invariant of `C17_history_limit` and its preservation, call by call -/
+
+/-- every file of the merge directory (if there is one) respects the limit `L` -/
+def MDirOK (L : Nat) (w : World) (dir : String) : Prop :=
+  ∀ md, w.get (mergeDirName dir) = some md →
+    ∃ gm, Matches md.data gm ∧ (∀ x ∈ gm, ∀ r ∈ x.2, RecOK r) ∧ SizeInv L gm
+
+theorem MDirOK.mono {L L' : Nat} {w : World} {dir : String} (h : MDirOK L w dir) (hL : L ≤ L') : MDirOK L' w dir := by
+  intro md hmd
+  obtain ⟨gm, h1, h2, h3⟩ := h md hmd
+  exact ⟨gm, h1, h2, h3.mono hL⟩
+
+theorem MDirOK.congr {L : Nat} {w w' : World} {dir : String} (h : MDirOK L w dir)
+    (hw : w'.get (mergeDirName dir) = w.get (mergeDirName dir)) : MDirOK L w' dir := by
+  intro md hmd
+  rw [hw] at hmd
+  exact h md hmd
+
+/-- every record of the data files, and every staged record, has key + value ≤ 2^27 bytes (the range in
+    which `GetLogRecordDiskSize` is an upper bound): `Bnd` of `Proofs/HistoryCost.lean` without its
+    numeric bounds -/
+def SmallSt (s : St) : Prop := ∃ A W, Bnd s A W
+
+theorem SmallSt_of {s : St} {db : DB} {g : GDir} (hs : s.db = some db) (hf : Files s db g) (hsg : SmallG g)
+    (hb : db.batch = none) : SmallSt s := by
+  refine ⟨db.activeId, wt g + stagedW db, db, g, hs, hf, Nat.le_refl _, hsg, Nat.le_refl _, ?_⟩
+  intro b hb'
+  rw [hb] at hb'; cases hb'
+
+theorem SmallSt.smallG {s s' : St} {db : DB} {g : GDir} (h : SmallSt s) (hw : s'.world = s.world) (hs : s.db = some db)
+    (hf : Files s' db g) : SmallG g := by
+  obtain ⟨A, W, db', g', hs', hf', _, hsg, _, _⟩ := h
+  rw [hs] at hs'; cases hs'
+  have : g' = g := PolicyP.Files_unique' hf' hf hw rfl
+  rw [← this]; exact hsg
+
+theorem HInv_open {dir : String} {s : St} {σ : SpecSt} (h : HInv dir s σ) : ∃ db, s.db = some db ∧ db.dir = dir := by
+  obtain ⟨m, sl⟩ := σ
+  have hQ : ∀ dead, HInvQ dir s m dead → ∃ db, s.db = some db ∧ db.dir = dir := by
+    intro dead hq
+    obtain ⟨db, hs, _⟩ := hq.2
+    obtain ⟨db0, g, hs0, hd0, _⟩ := hq.1
+    rw [setB_db hs] at hs0
+    cases hs0
+    exact ⟨db, hs, hd0⟩
+  cases sl with
+  | none => exact hQ false h
+  | dead => exact hQ true h
+  | live issued =>
+    obtain ⟨db, g, b, l0, fl, hx, hd, _⟩ := h
+    exact ⟨db, hx.open_, hd⟩
+
+theorem quiet_of_wf {dir : String} {s : St} {σ : SpecSt} {op : HOp} (hi : HInv dir s σ)
+    (hwf : isLive σ.slot = true → batchCall op = true) (hb : batchCall op = false) : ∃ dead, HInvQ dir s σ.m dead := by
+  have hq : isLive σ.slot = false := by
+    cases hl : isLive σ.slot with
+    | false => rfl
+    | true => have := hwf hl; rw [hb] at this; cases this
+  exact HInv_quiet hi hq
+
+/-- the limit the files respect: the largest `DataFileSize` configured so far -/
+def limStep (L : Nat) : HOp → Nat
+  | .restart cfg => max L cfg.fileSize
+  | _ => L
+
+/-- **the invariant of `C17_history_limit`**: the data files respect `L` (`SizeOK`), all records are
+    in the range of the estimate (`SmallSt`), the files of the merge directory respect `L` -/
+def LimJ (dir : String) (L : Nat) (s : St) : Prop := SizeOK L s ∧ SmallSt s ∧ MDirOK L s.world dir
+
+theorem AOpOK_of {dir : String} {op : AOp} (hop : HOpOK dir (.a op)) (hsm : HOpSmall (.a op)) : AOpOK op := by
+  cases op with
+  | put k v => exact hsm
+  | del k => exact hsm
+  | bnew sy id => exact hop.2
+  | bput k v => exact hsm
+  | bdel k => exact hsm
+  | get k => trivial
+  | sync => trivial
+  | bget k => trivial
+  | bcommit => trivial
+  | bdrop => trivial
+
+theorem SmallSt_astep {dir : String} {s : St} (h : SmallSt s) (op : AOp) (hop : HOpOK dir (.a op))
+    (hsm : HOpSmall (.a op)) : SmallSt (astep s op).1 := by
+  obtain ⟨A, W, hb⟩ := h
+  cases op with
+  | put k v => exact ⟨_, _, Bnd_put hb k v hop.1 hop.2 hsm⟩
+  | del k => exact ⟨_, _, Bnd_delete hb k hop hsm⟩
+  | get k =>
+    show SmallSt (get s k).1
+    rw [PolicyP.get_state]; exact ⟨A, W, hb⟩
+  | sync => exact ⟨_, _, Bnd_sync hb⟩
+  | bnew sy id => exact ⟨_, _, Bnd_bnew hb sy id hop.2⟩
+  | bput k v => exact ⟨_, _, Bnd_bput hb k v hop.1 hop.2 hsm⟩
+  | bdel k => exact ⟨_, _, Bnd_bdel hb k hop hsm⟩
+  | bget k =>
+    show SmallSt (bget s k).1
+    rw [bget_state]; exact ⟨A, W, hb⟩
+  | bcommit => exact ⟨_, _, Bnd_bcommit hb⟩
+  | bdrop => exact ⟨_, _, Bnd_bdrop hb⟩
+
+theorem astep_mdir {dir : String} {s : St} {db : DB} (hs : s.db = some db) (hd : db.dir = dir) (op : AOp) :
+    (astep s op).1.world.get (mergeDirName dir) = s.world.get (mergeDirName dir) := by
+  obtain ⟨hfr, _⟩ := C03H.astep_frame hs op
+  exact hfr (mergeDirName dir) (by rw [hd]; exact Restart.mergeDirName_ne dir)
+
+theorem merge_lim {dir : String} {s : St} {m : BSpec} {dead : Bool} {L : Nat} (hq : HInvQ dir s m dead)
+    (hj : LimJ dir L s) (order : List Nat) (ho : order.Nodup)
+    (hsmall : ∀ db, s.db = some db → db.activeId + 1 < 2 ^ 32) : LimJ dir L (merge s order).1 := by
+  obtain ⟨⟨db, g, hs, hf, hsi, hlim, hb⟩, hsm, hmd⟩ := hj
+  obtain ⟨hs0, hd, hi0, _⟩ := hq.unpack hs hf
+  obtain ⟨h1, h2, _⟩ := merge_spec hs0 hi0 order ho (hsmall db hs)
+  have e : merge s order = (setB db.batch (merge (setB none s) order).1, (merge (setB none s) order).2) := by
+    conv => lhs; rw [← setB_restore hs]
+    exact merge_setB _ _ _
+  refine ⟨?_, ?_, ?_⟩
+  · rw [e]
+    exact ⟨setBDB db.batch (rotDB (setBDB none db)), g ++ [(db.activeId + 1, [])], setB_db h1 _,
+      h2.files.congr rfl rfl rfl, SizeInv_snoc hsi (FileOK_nil L), hlim, hb⟩
+  · obtain ⟨A, W, db', g', hs', hf', _, hsg', hW', hbok'⟩ := hsm
+    have hb' : Bnd s db'.activeId W := ⟨db', g', hs', hf', Nat.le_refl _, hsg', hW', hbok'⟩
+    exact ⟨_, _, (Bnd_merge hq hb' order ho (hsmall db' hs')).2⟩
+  · have hsg : SmallG g := hsm.smallG (s' := setB none s) rfl hs (hf.congr rfl rfl rfl)
+    have := merge_sizes hs0 hi0 order ho hsg (show (setBDB none db).cfg.fileSize ≤ L from hlim)
+    rw [e]
+    intro md hmd'
+    have hdir : (setBDB none db).dir = dir := hd
+    rw [hdir] at this
+    exact this md hmd'
+
+theorem backup_lim {dir : String} {s : St} {L : Nat} {db0 : DB} (hs0 : s.db = some db0) (hd0 : db0.dir = dir)
+    (hj : LimJ dir L s) (dest : String) (h1 : dest ≠ dir) (h2 : dest ≠ mergeDirName dir) :
+    LimJ dir L (backup s dest).1 := by
+  obtain ⟨⟨db, g, hs, hf, hsi, hlim, hb⟩, ⟨A, W, hbnd⟩, hmd⟩ := hj
+  rw [hs0] at hs; cases hs
+  refine ⟨?_, ⟨A, W, Bnd_backup hbnd dest (fun db' hs' => by rw [hs0] at hs'; cases hs'; rw [hd0]; exact h1)⟩, ?_⟩
+  · obtain ⟨X, e⟩ := backup_eq hs0 dest
+    rw [e]
+    have hw : (s.world.set dest X).get db0.dir = s.world.get db0.dir :=
+      MergeP.get_set_ne _ _ _ _ (by rw [hd0]; exact fun e => h1 e.symm)
+    exact ⟨db0, g, hs0, ⟨by show DirOK (s.world.set dest X) db0.dir g; unfold DirOK; rw [hw]; exact hf.dir, hf.asc,
+      hf.active, hf.recs⟩, hsi, hlim, hb⟩
+  · obtain ⟨X, e⟩ := backup_eq hs0 dest
+    rw [e]
+    exact hmd.congr (MergeP.get_set_ne _ _ _ _ (fun e => h2 e.symm))
+
+theorem restart_lim {dir : String} {s : St} {m : BSpec} {dead : Bool} {L : Nat} (hq : HInvQ dir s m dead)
+    (hj : LimJ dir L s) (cfg' : Cfg) (hcfg : cfg'.Valid)
+    (hsz : ∀ md, s.world.get (mergeDirName dir) = some md → md.marker ≠ none →
+      ∀ x ∈ md.data, x.2.bytes.size < 2 ^ 32) :
+    LimJ dir (max L cfg'.fileSize) (openDB (close s).1 dir cfg').1 := by
+  obtain ⟨⟨db, g, hs, hf, hsi, hlim, hb⟩, hsm, hmd⟩ := hj
+  obtain ⟨hs0, hd, hi0, hms⟩ := hq.unpack hs hf
+  subst hd
+  have hcl : close (setB none s) = close s := close_setB none s
+  have hsg : SmallG g := hsm.smallG (s' := setB none s) rfl hs (hf.congr rfl rfl rfl)
+  rcases hms with hnm | ⟨n, gm, vis, hmo⟩
+  · obtain ⟨d, hd, _, hopen⟩ := restart_scanX cfg' hs0 hi0 hnm.plan hcfg
+    rw [hcl] at hopen
+    have hopen' : openDB (close s).1 db.dir cfg'
+        = (⟨s.world.set db.dir ⟨syncAll d.data, d.hint, d.marker, true⟩, some (scanDB cfg' db.dir db.activeId g)⟩, .ok) := hopen
+    rw [hopen']
+    obtain ⟨d', hd', _, hm⟩ := hi0.dir
+    have hdd : d' = d := by
+      have : (setB none s).world.get (setBDB none db).dir = s.world.get db.dir := rfl
+      rw [this] at hd'
+      have hd2 : s.world.get db.dir = some d := hd
+      rw [hd2] at hd'; cases hd'; rfl
+    subst hdd
+    have hinv' := Inv_scanDB (s.world.set db.dir ⟨syncAll d'.data, d'.hint, d'.marker, true⟩) db.dir cfg'
+      ⟨syncAll d'.data, d'.hint, d'.marker, true⟩ g db.activeId (MergeP.get_set_self _ _ _) rfl (Matches_syncAll hm)
+      hi0.asc hi0.recs hi0.active ⟨_, some (scanDB cfg' db.dir db.activeId g)⟩ rfl
+    refine ⟨⟨_, g, rfl, hinv'.files, hsi.mono (Nat.le_max_left _ _), Nat.le_max_right _ _, fun b hb' => by cases hb'⟩,
+      SmallSt_of rfl hinv'.files hsg rfl, ?_⟩
+    exact (hmd.mono (Nat.le_max_left _ _)).congr (MergeP.get_set_ne _ _ _ _ (mname_ne db.dir))
+  · have hF := HintFits_of_sizes hmo hsz
+    obtain ⟨d, md, maxFid, W', hd, hmdd, hmm, _, _, hopen, _, hWm, hinv', hM, _, _⟩ :=
+      restart_adoptX cfg' hs0 hi0 hmo hF hcfg
+    rw [hcl] at hopen
+    have hopen' : openDB (close s).1 db.dir cfg'
+        = (⟨W', some (hintDB cfg' db.dir db.activeId (gm ++ hi g n) (sizeSum (logOf (hi gm maxFid))))⟩, .ok) := hopen
+    rw [hopen']
+    obtain ⟨gm', hmm', hrecs', hsz'⟩ := hmd md hmdd
+    have hgg : gm' = gm := PolicyP.Matches_unique hmm' hmm hrecs' hM.recs
+    subst hgg
+    have hsiAll : SizeInv L (gm' ++ hi g n) := by
+      intro x hx
+      rcases List.mem_append.mp hx with hx | hx
+      · exact hsz' x hx
+      · exact hsi x ((hi_sublist g n).subset hx)
+    have hsgAll : SmallG (gm' ++ hi g n) := by
+      intro x hx r hr
+      rcases List.mem_append.mp hx with hx | hx
+      · exact SmallG_merged hmo hsg x hx r hr
+      · exact hsg x ((hi_sublist g n).subset hx) r hr
+    refine ⟨⟨_, gm' ++ hi g n, rfl, hinv'.files, hsiAll.mono (Nat.le_max_left _ _), Nat.le_max_right _ _,
+      fun b hb' => by cases hb'⟩, SmallSt_of rfl hinv'.files hsgAll rfl, ?_⟩
+    intro md' hmd'
+    have : W'.get (mergeDirName db.dir) = none := hWm
+    rw [this] at hmd'; cases hmd'
+
+/-- **one call keeps the invariant**, with the limit raised by a restart to the new `DataFileSize` if
+    that is larger -/
+theorem LimJ_step (dir : String) (L : Nat) (s : St) (σ : SpecSt) (op : HOp) (hi : HInv dir s σ) (hj : LimJ dir L s)
+    (hop : HOpOK dir op) (hsm : HOpSmall op) (hwf : isLive σ.slot = true → batchCall op = true)
+    (hst : StepOK dir s op) : LimJ dir (limStep L op) (hstep dir s op).1 := by
+  obtain ⟨db0, hs0, hd0⟩ := HInv_open hi
+  cases op with
+  | a op =>
+    exact ⟨SizeOK_astep hj.1 op (AOpOK_of hop hsm), SmallSt_astep hj.2.1 op hop hsm,
+      hj.2.2.congr (astep_mdir hs0 hd0 op)⟩
+  | merge order =>
+    obtain ⟨dead, hq⟩ := quiet_of_wf hi hwf rfl
+    exact merge_lim hq hj order hop hst
+  | restart cfg' =>
+    obtain ⟨dead, hq⟩ := quiet_of_wf hi hwf rfl
+    exact restart_lim hq hj cfg' hop hst
+  | backup dest => exact backup_lim hs0 hd0 hj dest hop.1 hop.2
+
+theorem LimJ_fresh (dir : String) (cfg : Cfg) (h : cfg.Valid) : LimJ dir cfg.fileSize (openDB St.init dir cfg).1 := by
+  refine ⟨SizeOK_fresh dir cfg h, ⟨0, 0, Bnd_fresh dir cfg h⟩, ?_⟩
+  intro md hmd
+  rw [openDB_fresh dir cfg h] at hmd
+  simp [World.get, if_neg (Engine.mergeDirName_ne dir)] at hmd
 
 end XixiKV.C17H
